@@ -122,6 +122,8 @@ struct SysCase {
     groups: Vec<(usize, usize)>,
     /// arguments made of two-byte characters (same byte lengths)
     mb: bool,
+    /// lengths of fixed arguments after the command name
+    fixed: Vec<usize>,
 }
 
 fn run_xargs_sys(ctx: &Ctx, c: &SysCase) -> (String, String) {
@@ -138,6 +140,7 @@ fn run_xargs_sys(ctx: &Ctx, c: &SysCase) -> (String, String) {
         cmd.arg("-s").arg(c.s.to_string());
     }
     cmd.arg(&rec);
+    for l in &c.fixed { cmd.arg("f".repeat(*l)); }
     cmd.env_clear();
     let mut env_lens = vec![];
     for i in 0..c.envc {
@@ -178,14 +181,14 @@ fn run_xargs_sys(ctx: &Ctx, c: &SysCase) -> (String, String) {
     let mut sizes = vec![];
     let mut order_ok = true;
     let mut expect_idx = 0usize;
-    let all_indexed = c.groups.iter().all(|g| g.1 >= 8);
+    let all_indexed = c.groups.iter().all(|g| g.1 >= 8) && c.fixed.is_empty();
     for l in text.lines() {
         let f: Vec<&str> = l.split(' ').collect();
         if f.len() < 5 || f[0] != "C" {
             continue;
         }
         let argc: usize = f[1].parse().unwrap_or(0);
-        let appended = argc.saturating_sub(1);
+        let appended = argc.saturating_sub(1 + c.fixed.len());
         if all_indexed && appended > 0 {
             let first = String::from_utf8_lossy(&crate::wire::unhex(f[3])).to_string();
             let last = String::from_utf8_lossy(&crate::wire::unhex(f[4])).to_string();
@@ -207,12 +210,14 @@ fn run_xargs_sys(ctx: &Ctx, c: &SysCase) -> (String, String) {
     };
     let groups: Vec<String> = c.groups.iter().map(|(n, l)| format!("{n}*{l}")).collect();
     let envs: Vec<String> = env_lens.iter().map(|l| format!("1*{l}")).collect();
+    let mut cmdw = vec![format!("1*{}", rec.as_os_str().as_bytes().len())];
+    cmdw.extend(c.fixed.iter().map(|l| format!("1*{l}")));
     let req = format!(
-        "xargs-sys {} {} {} 1*{} {} {}",
+        "xargs-sys {} {} {} {} {} {}",
         stack_wire(c.stack),
         c.n,
         c.s,
-        rec.as_os_str().as_bytes().len(),
+        crate::wire::list(&cmdw),
         crate::wire::list(&envs),
         crate::wire::list(&groups)
     );
@@ -224,25 +229,29 @@ pub fn run_prop(ctx: &Ctx, sink: &mut Sink) {
     probe_kernel(sink, ctx);
     // corpus: the two defects repaired by the fix: commit
     let mut cases = vec![
-        SysCase { mb: false, stack: UNLIMITED, n: 0, s: 0, envc: 0, envlen: 0, groups: vec![(400_000, 6)] },
-        SysCase { mb: false, stack: 8 << 20, n: 0, s: 0, envc: 0, envlen: 0, groups: vec![(3, 10), (1, 200_000), (3, 10)] },
-        SysCase { mb: false, stack: 256 << 10, n: 0, s: 0, envc: 0, envlen: 0, groups: vec![(100_000, 1)] },
+        SysCase { fixed: vec![], mb: false, stack: UNLIMITED, n: 0, s: 0, envc: 0, envlen: 0, groups: vec![(400_000, 6)] },
+        SysCase { fixed: vec![], mb: false, stack: 8 << 20, n: 0, s: 0, envc: 0, envlen: 0, groups: vec![(3, 10), (1, 200_000), (3, 10)] },
+        SysCase { fixed: vec![], mb: false, stack: 256 << 10, n: 0, s: 0, envc: 0, envlen: 0, groups: vec![(100_000, 1)] },
         // the per-argument limit, byte-exact (an argument plus its NUL may take 32 pages)
-        SysCase { mb: false, stack: 8 << 20, n: 0, s: 0, envc: 0, envlen: 0, groups: vec![(3, 10), (1, 131_070), (3, 10)] },
-        SysCase { mb: false, stack: 8 << 20, n: 0, s: 0, envc: 0, envlen: 0, groups: vec![(3, 10), (1, 131_071), (3, 10)] },
-        SysCase { mb: false, stack: 8 << 20, n: 0, s: 0, envc: 0, envlen: 0, groups: vec![(3, 10), (1, 131_072), (3, 10)] },
-        SysCase { mb: false, stack: UNLIMITED, n: 0, s: 0, envc: 5, envlen: 40, groups: vec![(1, 131_072)] },
-        SysCase { mb: false, stack: 8 << 20, n: 2, s: 0, envc: 0, envlen: 0, groups: vec![(2, 131_071), (1, 131_073), (1, 8)] },
+        SysCase { fixed: vec![], mb: false, stack: 8 << 20, n: 0, s: 0, envc: 0, envlen: 0, groups: vec![(3, 10), (1, 131_070), (3, 10)] },
+        SysCase { fixed: vec![], mb: false, stack: 8 << 20, n: 0, s: 0, envc: 0, envlen: 0, groups: vec![(3, 10), (1, 131_071), (3, 10)] },
+        SysCase { fixed: vec![], mb: false, stack: 8 << 20, n: 0, s: 0, envc: 0, envlen: 0, groups: vec![(3, 10), (1, 131_072), (3, 10)] },
+        SysCase { fixed: vec![], mb: false, stack: UNLIMITED, n: 0, s: 0, envc: 5, envlen: 40, groups: vec![(1, 131_072)] },
+        SysCase { fixed: vec![], mb: false, stack: 8 << 20, n: 2, s: 0, envc: 0, envlen: 0, groups: vec![(2, 131_071), (1, 131_073), (1, 8)] },
         // thousands of small environment variables: their pointers count as much as their bytes
-        SysCase { mb: false, stack: 8 << 20, n: 0, s: 0, envc: 3000, envlen: 10, groups: vec![(300_000, 1)] },
-        SysCase { mb: false, stack: 512 << 10, n: 0, s: 0, envc: 1500, envlen: 9, groups: vec![(80_000, 1)] },
+        SysCase { fixed: vec![], mb: false, stack: 8 << 20, n: 0, s: 0, envc: 3000, envlen: 10, groups: vec![(300_000, 1)] },
+        SysCase { fixed: vec![], mb: false, stack: 512 << 10, n: 0, s: 0, envc: 1500, envlen: 9, groups: vec![(80_000, 1)] },
         // a large -s does not replace the system limits: argv pointers and the per-argument limit still apply
-        SysCase { mb: false, stack: 8 << 20, n: 0, s: 1_000_000, envc: 0, envlen: 0, groups: vec![(300_000, 1)] },
-        SysCase { mb: false, stack: 8 << 20, n: 0, s: 200_000, envc: 0, envlen: 0, groups: vec![(3, 10), (1, 150_000), (3, 10)] },
-        SysCase { mb: false, stack: 8 << 20, n: 0, s: 1_900_000, envc: 0, envlen: 0, groups: vec![(2000, 900)] },
+        SysCase { fixed: vec![], mb: false, stack: 8 << 20, n: 0, s: 1_000_000, envc: 0, envlen: 0, groups: vec![(300_000, 1)] },
+        SysCase { fixed: vec![], mb: false, stack: 8 << 20, n: 0, s: 200_000, envc: 0, envlen: 0, groups: vec![(3, 10), (1, 150_000), (3, 10)] },
+        SysCase { fixed: vec![], mb: false, stack: 8 << 20, n: 0, s: 1_900_000, envc: 0, envlen: 0, groups: vec![(2000, 900)] },
+        // a long fixed argument is charged to every limiter, whatever -n / -s say
+        SysCase { fixed: vec![16_000], mb: false, stack: 8 << 20, n: 1_000_000, s: 0, envc: 0, envlen: 0, groups: vec![(400_000, 7)] },
+        SysCase { fixed: vec![3000, 3000], mb: false, stack: 512 << 10, n: 0, s: 0, envc: 0, envlen: 0, groups: vec![(60_000, 3)] },
+        SysCase { fixed: vec![5000], mb: false, stack: 8 << 20, n: 0, s: 100_000, envc: 0, envlen: 0, groups: vec![(20_000, 9)] },
         // multi-byte arguments: the budget counts bytes, not characters
-        SysCase { mb: true, stack: 8 << 20, n: 0, s: 0, envc: 0, envlen: 0, groups: vec![(2500, 2000)] },
-        SysCase { mb: true, stack: 8 << 20, n: 0, s: 0, envc: 0, envlen: 0, groups: vec![(3, 10), (1, 140_000), (3, 10)] },
+        SysCase { fixed: vec![], mb: true, stack: 8 << 20, n: 0, s: 0, envc: 0, envlen: 0, groups: vec![(2500, 2000)] },
+        SysCase { fixed: vec![], mb: true, stack: 8 << 20, n: 0, s: 0, envc: 0, envlen: 0, groups: vec![(3, 10), (1, 140_000), (3, 10)] },
     ];
     let nrand = if ctx.thorough { 70 } else { 6 };
     for _ in 0..nrand {
@@ -262,7 +271,8 @@ pub fn run_prop(ctx: &Ctx, sink: &mut Sink) {
             1 => (0, rng.range(50_000, 120_000)),
             _ => (0, 0),
         };
-        cases.push(SysCase { mb: rng.chance(1, 4), stack, n, s, envc, envlen, groups });
+        let fixed = if rng.chance(1, 3) { vec![rng.range(100, 20_000)] } else { vec![] };
+        cases.push(SysCase { fixed, mb: rng.chance(1, 4), stack, n, s, envc, envlen, groups });
     }
     for c in &cases {
         let (req, imp) = run_xargs_sys(ctx, c);
